@@ -734,6 +734,9 @@ impl Check for C01 {
             "the pre-state of a firing is the fact snapshot the callback saw after the previous firing (only rule actions modify the facts)".into(),
         ]
     }
+    fn devopt_scale(&self) -> Option<f64> {
+        Some(0.1)
+    }
     fn explore(&self, cli: &Cli, st: &mut Stats) {
         // exhaustive single-leaf matrix
         let matrix = leaf_matrix();
